@@ -65,3 +65,110 @@ Theorem C13_redirect_independent_of_block : forall sup b1 b2 st m,
   v_redirect (check_verdict sup b1 st m) = v_redirect (check_verdict sup b2 st m).
 Proof. exact redirect_independent_of_block. Qed.
 Print Assumptions C13_redirect_independent_of_block.
+
+Theorem C13_unsupported_request_no_redirect : forall b st m,
+  v_redirect (check_verdict false b st m) = None /\ v_matched (check_verdict false b st m) = false.
+Proof. exact unsupported_request_no_redirect. Qed.
+Print Assumptions C13_unsupported_request_no_redirect.
+
+(* ---- priority parsing: Rust's i32 grammar with the range modelled ---- *)
+(* parse_i32 accepts exactly: one optional sign, at least one ASCII digit, nothing else, value
+   within [-2^31, 2^31-1]; and returns that value *)
+Theorem C13_parse_i32_spec : forall s z, parse_i32 s = Some z <-> i32_text s z.
+Proof. exact parse_i32_spec. Qed.
+Print Assumptions C13_parse_i32_spec.
+
+Theorem C13_priority_no_colon : forall s, ~ In COLON s -> split_redirect_priority s = (s, 0%Z).
+Proof. exact split_no_colon. Qed.
+Print Assumptions C13_priority_no_colon.
+
+Theorem C13_priority_well_formed : forall name suf p,
+  ~ In COLON suf -> i32_text suf p -> split_redirect_priority (name ++ COLON :: suf) = (name, p).
+Proof. exact split_with_priority. Qed.
+Print Assumptions C13_priority_well_formed.
+
+(* malformed / empty / out-of-range text after the last ':' : whole string is the name, priority 0 *)
+Theorem C13_priority_malformed : forall name suf,
+  ~ In COLON suf -> (forall p, ~ i32_text suf p) ->
+  split_redirect_priority (name ++ COLON :: suf) = (name ++ COLON :: suf, 0%Z).
+Proof. exact split_malformed. Qed.
+Print Assumptions C13_priority_malformed.
+
+Theorem C13_priority_parse : forall s name p,
+  split_redirect_priority s = (name, p) ->
+  (name = s /\ p = 0%Z) \/
+  (exists suf, s = name ++ COLON :: suf /\ ~ In COLON suf /\ i32_text suf p).
+Proof. exact split_spec. Qed.
+Print Assumptions C13_priority_parse.
+
+Theorem C13_priority_range : forall s,
+  (I32_MIN <= snd (split_redirect_priority s) <= I32_MAX)%Z.
+Proof. exact split_priority_range. Qed.
+Print Assumptions C13_priority_range.
+
+(* ---- choice of the resource ---- *)
+(* a matching exception cancels by resource name, whatever priority suffix either side carries
+   (finding F14, fixed in /repo) *)
+Theorem C13_exception_by_name : forall m name,
+  In name (exception_names m) <-> excepted m name.
+Proof. exact exception_by_name. Qed.
+Print Assumptions C13_exception_by_name.
+
+(* the chosen name is offered by a matching redirect / redirect-rule option, is not excepted, and
+   no non-excepted offer has a higher priority (membership in the arg-max set; among equal
+   priorities the delivery order of check_all decides) *)
+Theorem C13_redirect_choice : forall m name,
+  pick_redirect m = Some name ->
+  exists p, candidate m name p /\ forall n' p', candidate m n' p' -> (p' <= p)%Z.
+Proof. exact pick_redirect_some. Qed.
+Print Assumptions C13_redirect_choice.
+
+Theorem C13_redirect_choice_none : forall m,
+  pick_redirect m = None <-> forall name p, ~ candidate m name p.
+Proof. exact pick_redirect_none. Qed.
+Print Assumptions C13_redirect_choice_none.
+
+Theorem C13_redirect_choice_unique : forall m name p,
+  candidate m name p ->
+  (forall n' p', candidate m n' p' -> n' = name \/ (p' < p)%Z) ->
+  pick_redirect m = Some name.
+Proof. exact pick_redirect_unique. Qed.
+Print Assumptions C13_redirect_choice_unique.
+
+(* ---- resource gate and the full statement ---- *)
+Theorem C13_resource_gate : forall st ident url,
+  get_redirect_resource st ident = Some url <->
+  exists r m, loaded st ident r /\ r_permission r = 0%N /\ r_kind r = Kind_Mime m /\
+              l0_redirectable (r_kind r) = true /\ url = data_url m (r_content r).
+Proof. exact resource_gate. Qed.
+Print Assumptions C13_resource_gate.
+
+Theorem C13_redirect_spec : forall st m url,
+  redirect_of st m = Some url <->
+  exists name r mime,
+    pick_redirect m = Some name /\ loaded st name r /\ r_permission r = 0%N /\
+    r_kind r = Kind_Mime mime /\ l0_redirectable (r_kind r) = true /\
+    url = data_url mime (r_content r).
+Proof. exact redirect_spec. Qed.
+Print Assumptions C13_redirect_spec.
+
+Theorem C13_redirect_none : forall st m,
+  redirect_of st m = None <->
+  pick_redirect m = None \/
+  exists name, pick_redirect m = Some name /\
+    forall r, loaded st name r -> r_permission r <> 0%N \/ l0_redirectable (r_kind r) = false.
+Proof. exact redirect_none. Qed.
+Print Assumptions C13_redirect_none.
+
+Theorem C13_redirect_of_verdict : forall b st m,
+  v_redirect (check_verdict true b st m) = redirect_of st m.
+Proof. exact redirect_of_verdict. Qed.
+Print Assumptions C13_redirect_of_verdict.
+
+(* "loaded" for a store built by use_resources: the answer is one of the resources handed in and
+   it owns the identifier as name or alias *)
+Theorem C13_loaded_from_resources : forall rs ident r,
+  loaded (from_resources rs) ident r ->
+  In r rs /\ (r_name r = ident \/ In ident (r_aliases r)).
+Proof. exact loaded_from_resources. Qed.
+Print Assumptions C13_loaded_from_resources.
